@@ -38,7 +38,7 @@ WEIGHTS = ["none", "frac", "zeros", "float"]
 MSETS = [(), ("sum",), (), ("mean", "stddev"), ("sum", "mean"), ()]
 REQUIRED_REACH = ["paired", "direction_free", "orders", "masks", "class:ins", "class:diff",
                   "class:transformed", "class:sum_measure", "class:pair=CATxMR",
-                  "class:pair=MRxMR", "class:pair=ARRxCAT"]
+                  "class:pair=MRxMR", "class:pair=ARRxCAT", "class:corpus"]
 BATCH = 25
 UNIT_TIMEOUT_S = 40
 
@@ -71,11 +71,24 @@ def swap_measure_kw(kw):
 
 
 def units(tier, seed):
+    from .. import corpus
+
     n = 500 if tier == "quick" else 30000
-    return [{"i": i, "seed": seed} for i in range(n)]
+    # W1 synthetic surveys, then W3: real 2-D payloads of the fixture corpus, transposed
+    return [{"i": i, "seed": seed} for i in range(n)] + corpus.units(
+        tier, seed, reps=1 if tier == "quick" else 8)
 
 
 def make_case(unit):
+    if "corpus" in unit:
+        from .. import corpus
+
+        rel = corpus.fixture_paths()[unit["corpus"]]
+        g = gen.G("C10/corpus/%s/%s/%s" % (unit["seed"], unit["corpus"], unit["rep"]))
+        resp = corpus.load(rel)
+        return {"fixture": rel, "population": 1000,
+                "transforms": {} if unit["rep"] == 0 and unit["corpus"] % 2 else
+                corpus.random_full_transforms(g, resp)}
     i = unit["i"]
     g = gen.G("C10/%s/%s" % (unit["seed"], i))
     template = TEMPLATES[i % len(TEMPLATES)]
@@ -148,7 +161,88 @@ def transpose_case(case):
     return c2
 
 
+def _swap_transforms(tr):
+    tr = copy.deepcopy(tr or {})
+    tr2 = {k: v for k, v in tr.items() if k not in ("rows_dimension", "columns_dimension")}
+    if "rows_dimension" in tr:
+        tr2["columns_dimension"] = tr["rows_dimension"]
+    if "columns_dimension" in tr:
+        tr2["rows_dimension"] = tr["columns_dimension"]
+    for key in ("rows_dimension", "columns_dimension"):
+        od = (tr2.get(key) or {}).get("order")
+        if od and "measure" in od:
+            od["measure"] = swap_measure_kw(od["measure"])
+    return tr2
+
+
+def _check_corpus(case):
+    """A real payload and the same payload with its two dimensions exchanged."""
+    import json as _json
+    from cr.cube.cube import Cube
+    from .. import corpus
+
+    res = CaseResult()
+    resp = corpus.load(case["fixture"])
+    res.descriptor = {"fixture": case["fixture"], "transforms": case["transforms"]}
+    respT = corpus.transposed_response(resp)
+    if respT is None:
+        res.skipped["corpus_not_a_plain_2d_cube"] += 1
+        return res
+    res.classes.append("corpus")
+    tr = case["transforms"]
+    cA = Cube(_json.loads(_json.dumps(resp)), transforms=copy.deepcopy(tr),
+              population=case["population"], mask_size=4)
+    cB = Cube(respT, transforms=_swap_transforms(tr), population=case["population"],
+              mask_size=4)
+    pA, pB = read(cA, "partitions"), read(cB, "partitions")
+    if not (pA.ok and pB.ok):
+        same = (not pA.ok) and (not pB.ok) and type(pA.exc) is type(pB.exc)
+        res.check("partitions_readable", same, "corpus/exception/partitions",
+                  {"A": repr(pA)[:200], "B": repr(pB)[:200]})
+        return res
+    if len(pA.value) != 1 or len(pB.value) != 1:
+        res.skipped["corpus_ca_as_0th"] += 1
+        return res
+    a, b = pA.value[0], pB.value[0]
+    dts = read(a, "dimension_types")
+    both_dates = dts.ok and all(t.name == "CAT_DATE" for t in dts.value)
+    names = partcmp.public_names(a)
+    nameset = set(names)
+    for n in names:
+        if n in ONE_DIRECTIONAL:
+            continue
+        m = swap_name(n)
+        if m != n and m not in nameset:
+            continue
+        if both_dates and n.startswith("population"):
+            continue
+        ga, gb = read(a, n), read(b, m)
+        mon = "direction_free" if m == n else "paired"
+        if not ga.ok or not gb.ok:
+            same_exc = (not ga.ok) and (not gb.ok) and type(ga.exc) is type(gb.exc)
+            res.check(mon, same_exc, "corpus/outcome/%s" % n,
+                      {"A": repr(ga)[:200], "B": repr(gb)[:200]})
+            continue
+        va, vb = ga.value, gb.value
+        if va is None or vb is None:
+            res.check(mon, va is None and vb is None, "corpus/none/%s" % n,
+                      {"A": snap(va), "B": snap(vb)})
+            continue
+        # real weights are not exactly representable: tolerance as for the float stratum
+        atol = 4e-4 if n.startswith("population") else 2e-7
+        ok, det = partcmp.values_same(va, _tvalue(vb), rtol=1e-7, atol=atol)
+        res.check(mon, ok, "corpus/%s/%s" % (mon, n), det)
+    for fa, fb in (("row_order", "column_order"), ("column_order", "row_order")):
+        ga, gb = read(a, fa), read(b, fb)
+        res.check("orders", ga.ok and gb.ok and snap(ga.value) == snap(gb.value),
+                  "corpus/orders/%s" % fa, {"A": repr(ga)[:200], "B": repr(gb)[:200]})
+    res.nontrivial = True
+    return res
+
+
 def check_case(case):
+    if "fixture" in case:
+        return _check_corpus(case)
     res = CaseResult()
     LA = cases.realize(case)
     caseB = transpose_case(case)
